@@ -344,7 +344,8 @@ pub fn grids_at(grids: &[Arc<dyn Grid>], coord: &Coor4D, use_null_grid: bool) ->
         }
     }
 
-    if use_null_grid {
+    // The null grid covers any position - but a NaN is not a position
+    if use_null_grid && !coord[0].is_nan() && !coord[1].is_nan() {
         return Some(Coor4D::origin());
     }
 
